@@ -4,7 +4,7 @@ from ..runner import Finding, Result
 from . import common
 
 PROFILE = {
-    "name": "c13", "max_clients": 5, "hostile_masks": False, "serial_noise": True, "invalid_nicks": True,
+    "name": "c13", "forge_prefix": True, "max_clients": 5, "hostile_masks": False, "serial_noise": True, "invalid_nicks": True,
     "empty_text": 0.12,
     "weights": dict(connect=6, end=1, quit=0.5, join=12, part=8, kick=7, topic=9, invite=6, cmode=8, umode=2,
                     nick=8, privmsg=14, notice=8, away=6, oper=2, kill=0.5, wallops=5, stats=0.3, die=0.1, squit=0.1,
